@@ -7,5 +7,29 @@ CLAIMS = {
         "text": "Theorem served_without_contact_is_fresh: for every request, clock reading and every possible answer of the store, an exchange of the model that does not contact the origin returns the 504 or a stored response that is fresh by the RFC 9111 definitions (saturating), or is covered by only-if-cached / max-stale / the stale-while-revalidate window with a spawned revalidation. Unbounded (all inputs); the model is checked against the real transport on seeded boundary-biased histories and the same Spec definitions are evaluated on the implementation's trace.",
         "note": TB,
     },
+    "C02": {
+        "text": "Theorems strict_validation / soft_validation / conditional_request / qualified_fields_stripped: for every request, stored entry and environment, when the RFC-level conditions (unqualified no-cache, stale+must-revalidate, request no-cache; request max-age exceeded) hold the model performs exactly one origin call with the client's header list plus the stored validators and returns the stored response iff that call answered 304 (stale-if-error only for the soft case), else the origin's reply or failure; fields named by a qualified no-cache are absent from every response served without validation. Correspondence + Spec monitor on the real transport.",
+        "note": TB,
+    },
+    "C06": {
+        "text": "Theorems writes_justified / canStore_sound / understood_table_excludes: for every request and environment every store write of an exchange follows its single origin call and is either the write-back of the entry that was read (same status and body, after a 304) or one StoreResponse for a non-304 reply whose body was read completely and which the storability rules accept (final status, not 206, no no-store, must-understand only if understood, explicit freshness or RFC-heuristic status); bypassed requests (other methods, Range) never write. Correspondence + monitor over every Set reaching the recording store.",
+        "note": TB,
+    },
+    "C10": {
+        "text": "Theorems terminates / error_only_from_origin / store_fault_means_origin: every program is a finite tree with an execution for every environment; a round trip always yields a response or an error, an error only when its last origin call failed; when store reads fail or return undecodable bytes the client's own request goes to the origin (or 504 for only-if-cached) and the result is that call's outcome. Panic-freedom of the Go code itself is evidenced by the correspondence run (recover around every RoundTrip) and the monitor, not by the theorem.",
+        "note": TB + " Not modelled: goroutine scheduling, hangs inside a backend.",
+    },
+    "C11": {
+        "text": "Theorem classification: every response of the model is produced in exactly one of five ways (synthesised 504; HIT from the store without contact; STALE with a spawned revalidation; outcome of a validation; the origin's own reply marked MISS/BYPASS), with served_fields / origin_fields (exactly one status value, X-From-Cache = 1 exactly for store-served responses, exactly one Age) and hit_age (Age = RFC 9111 §4.2.3 age in whole seconds). Correspondence + monitor recomputing age and provenance on the implementation's trace.",
+        "note": TB,
+    },
+    "C13": {
+        "text": "Theorems sie_only_inside_window / sie_statuses: whenever a validation ends with the stored response marked STALE, validation was not mandatory (no no-cache / stale must-revalidate), the origin call failed or answered 500/502/503/504 (table regenerated from the source), and the stored response or the request carries stale-if-error=N with the response inside that window by the RFC definitions at the instant of failure; the failed reply's own directives are not a source. Liveness (inside the window ⇒ served) is checked by the monitor on the implementation, not proved.",
+        "note": TB,
+    },
+    "C18": {
+        "text": "Theorem oic_no_origin: for every request (any method) carrying only-if-cached, every clock reading and every answer of the store, the exchange performs no origin call and spawns no background work; the result is the synthesised 504 or the entry that was read, which then needs no validation by the RFC-level rules. Correspondence + monitor (upstream call log must stay empty).",
+        "note": TB,
+    },
 }
 NOT_APPLICABLE = {("C%02d" % i): "check not built yet (work in progress; DESIGN.md §10 gives the order of construction)" for i in range(1, 21)}
